@@ -314,12 +314,14 @@ class QueryHandler:
             return None
 
         is_probe = False
-        msg = msgs[0]
-        questions = msg._questions
+        # A query that was split over several packets consists of the
+        # questions of all of them, not only of the first packet
+        questions: List[DNSQuestion] = []
         # Only decode known answers if we are not a probe and we have
         # at least one answer strategy
         answers: List[DNSRecord] = []
         for msg in msgs:
+            questions.extend(msg._questions)
             if msg.is_probe():
                 is_probe = True
             else:
